@@ -134,7 +134,7 @@ def job(item):
                 r, r0 = res["goals"].get(g, {}), ref["goals"].get(g, {})
                 if "cf" not in r or "cf" not in r0:
                     continue
-                for k in range(N + 1):
+                for k in range(max(N, 12) + 1):  # beyond the listed beginning values, which are exact under every setting
                     try:
                         x = complex(sp.N(at_n(sp.sympify(r["cf"]), k), 40))
                         y = complex(sp.N(at_n(sp.sympify(r0["cf"]), k), 40))
